@@ -44,7 +44,10 @@ def _load_module(prop_id):
 
 def _tier_cap(mod, tier):
     caps = getattr(mod, 'WALL_CAP', {'quick': 600, 'thorough': 3600})
-    return caps[tier]
+    cap = caps[tier]
+    if tier == 'quick':
+        cap = min(cap, int(os.environ.get('VERIF_QUICK_CAP', '420')))
+    return cap
 
 
 def shard_main(args):
